@@ -1,4 +1,5 @@
 import DnpProofs.Lemmas.Consistent2
+import DnpProofs.Lemmas.ReduceDims
 set_option linter.unusedSectionVars false
 /-!
 # C10 — NumPy functions on data objects agree with NumPy and keep the labels
@@ -119,5 +120,19 @@ theorem reduce_tuple_duplicate (n : String) (f : List α → α) (d : Data κ α
     d.npReduce n f (.tuple items) = .error .value := by
   unfold npReduce
   simp only [hi, if_false, bind, Except.bind, hres, hdup, not_false_eq_true, if_true]
+
+/-- … and the VALUES: at the surviving labels ℓ the result holds `f` of all source values with those labels, over every
+    combination of positions of the consumed dimensions — NumPy's joint reduction, read by name -/
+theorem reduce_tuple_values (n : String) (f : List α → α) {d r : Data κ α} {items : List AxItem} (h : d.Consistent)
+    (hr : d.npReduce n f (.tuple items) = .ok (.inl r)) :
+    ∃ names, resolveItems d.dims items = .ok names ∧
+      ∀ ℓ : String → Nat, (∀ nm ∈ d.dims, nm ∉ names → ℓ nm < d.ext nm) →
+        r.getN ℓ = f ((List.range (size (names.map d.ext))).map
+                      (fun i => d.getN (withNames names (unravel i (names.map d.ext)) ℓ))) := by
+  obtain ⟨names, h1, hnd, hsub, _, _, _, _, _, q, hq, rfl⟩ := npReduce_tuple_spec n f h hr
+  refine ⟨names, h1, ?_⟩
+  intro ℓ hℓ
+  have := reduceDims_getN f h hnd hsub hq ℓ hℓ
+  simpa [getN, addHist] using this
 
 end Dnp.C10
